@@ -296,4 +296,33 @@ theorem c08_thread_never_dies (cfg : Cfg) (acc : Nat → Bool) (hc : CfgPos cfg)
     (tickPre cfg acc (evs.foldl (step cfg acc) {}) now K (canId, data)).err = none :=
   (c08_pre_pass_ok cfg acc _ now K (canId, data) hnow hc (c08_history_wf cfg acc hc evs {} J1939.Props.C07.c07_wf_init hpos)).1
 
+/-- what a handler result must satisfy: the tables are untouched, or a pass was requested, or the handler raised -/
+def Rung (s : St) (r : Res) : Prop := r.st = s ∨ Out.wake ∈ r.outs ∨ r.err.isSome = true
+
+/-- THE RECEIVE THREAD NEVER CHANGES A SESSION TABLE WITHOUT ASKING FOR A PASS: whatever frame it handles — also a
+    CTS, an end-of-message acknowledgement or a peer abort for a session the background pass has just visited — either
+    both tables are exactly as before or a wake-up request is among the outputs (or the handler raised); so a session
+    the handler made due is picked up by a pass that follows at once, and `c07_pass_ok` says that pass leaves no
+    overdue record: no session stays stuck behind a pre-empted pass -/
+theorem c08_rx_change_wakes (cfg : Cfg) (s : St) (now : Nat) (acc : Nat → Bool) (canId : Nat) (data : List Nat) :
+    Rung s (notify cfg s now acc canId data) := by
+  unfold notify
+  dsimp only
+  repeat' split
+  all_goals try (exact Or.inl rfl)
+  · unfold processCm
+    dsimp only
+    repeat' split
+    all_goals first
+      | exact Or.inl rfl
+      | (right; left; simp; done)
+      | (right; right; rfl)
+  · unfold processDt
+    dsimp only
+    repeat' split
+    all_goals first
+      | exact Or.inl rfl
+      | (right; left; simp; done)
+      | (right; right; rfl)
+
 end J1939.Props.C08
